@@ -2,7 +2,10 @@ package main
 
 import (
 	"fmt"
+	"math/rand"
 	"os"
+	"os/exec"
+	"syscall"
 	"time"
 
 	"verif/harness/tty"
@@ -11,38 +14,35 @@ import (
 func main() {
 	os.Setenv("VERIF_SCRATCH", "/tmp/probe-scr")
 	os.MkdirAll("/tmp/probe-scr", 0o755)
-	os.WriteFile("/tmp/probe-scr/alt", []byte("R1 foo\nR2 bar\nR3 foo bar\n"), 0o644)
-	bad := 0
-	for trial := 0; trial < 30; trial++ {
-		s, err := tty.Start(tty.StartOpts{InputCmd: "seq 5000", Args: []string{"--tail=250", "--no-sort"}, Cols: 100, Rows: 30})
+	rng := rand.New(rand.NewSource(11))
+	bad, total := 0, 0
+	for trial := 0; trial < 60 && bad < 2; trial++ {
+		s, err := tty.Start(tty.StartOpts{InputCmd: "seq 1 60", Args: []string{"--no-unicode", "--info=hidden", "--no-scrollbar", "--multi"}, Cols: 60, Rows: 20})
 		if err != nil {
 			fmt.Println("start:", err)
 			return
 		}
 		s.WaitQuiescent(10 * time.Second)
-		s.Post("execute-silent(sleep 0.15)")
-		s.Post("put( )")
-		s.Post("reload(cat /tmp/probe-scr/alt)")
-		s.Post("unix-word-rubout")
-		s.Post("put(foo)")
-		st, ok := s.WaitQuiescent(3 * time.Second)
-		if !ok {
-			bad++
-			st2, _ := s.Get(10)
-			fmt.Println("trial", trial, "stuck:", s.LastWait, st2.TotalCount, st2.MatchCount, st2.Reading)
-			for _, e := range s.Trace() {
-				if e.Kind != "scan.chunk" && e.Kind != "scan.count" {
-					fmt.Printf("  %d %s(%d,%d,%s)\n", e.TUs/1000, e.Kind, e.A, e.B, e.S)
-				}
+		for round := 0; round < 12; round++ {
+			for k := 0; k < 3; k++ {
+				s.Post([]string{"down", "toggle-sort", "half-page-down", "up", "put(1)", "clear-query", "toggle-all"}[rng.Intn(7)])
 			}
-			s.Signal(3)
-			time.Sleep(300 * time.Millisecond)
-			fmt.Println(s.Stderr()[:3000])
-			s.Close()
-			break
+			c, r := 30+rng.Intn(80), 8+rng.Intn(22)
+			s.Resize(c, r)
+			total++
+			if !s.WaitRedraw(c, r, 5*time.Second) {
+				bad++
+				psz, _ := s.PaneSize()
+				pid := s.FzfPid()
+				tty, _ := os.Readlink(fmt.Sprintf("/proc/%d/fd/2", pid))
+				out, _ := exec.Command("sh", "-c", "stty size < /dev/"+func() string { l, _ := os.Readlink(fmt.Sprintf("/proc/%d/fd/0", s.PanePid)); return l[5:] }()).CombinedOutput()
+				fmt.Printf("trial %d round %d: wanted %dx%d pane %s fzf pid %d fd2 %s stty size: %s", trial, round, c, r, psz, pid, tty, out)
+				syscall.Kill(pid, syscall.SIGWINCH)
+				fmt.Println(" after manual SIGWINCH redraw:", s.WaitRedraw(c, r, 3*time.Second))
+				break
+			}
 		}
-		_ = st
 		s.Close()
 	}
-	fmt.Println("bad", bad)
+	fmt.Println("bad", bad, "of", total)
 }
